@@ -531,16 +531,27 @@ fn fixed_probes() -> Vec<Probe> {
         p("arity-32-positional", w!("A_06.abra"), Want::Out("10912\nABCDEFGHIJKLMNOPQRSTUVWXYZABCDEF\n")),
         // D87 (79c3120): a variant that carries data cannot be named without its arguments
         p("D87-payload-variant-without-arguments", w!("A_D3_bare_payload_variant.abra"), Want::Rejected(&["carries data", "arguments are missing"])),
-        // D102: a default on an interface-implementation method works like on any named function
-        p("D102-default-on-impl-method", w!("B_48.abra"), Want::Out("11\n")),
+        // D102 (c7017fe): a default on a method that implements an interface is a diagnostic at the declaration
+        p("D102-default-on-impl-method", w!("B_48.abra"), Want::Rejected(&["can't have a default value"])),
         // lambdas do not support defaults (lambdas.md): using one is a diagnostic, never a crash
         p(
             "D102-default-on-lambda-parameter",
             "let f = (a: int, b: int = 5) -> a + b\nprintln(f(1))\n",
-            Want::Rejected(&[]),
+            Want::Rejected(&["can't have a default value"]),
         ),
         // default values holding a match, on a #host declaration, an impl method and a lambda parameter
-        p("match-inside-default-values", w!("B_36.abra"), Want::Out("3\n3\n")),
+        // a match inside a default value: fine on a #host declaration and a named function …
+        p(
+            "match-inside-default-values",
+            "#host\nfn zz_host_fn(x: int = match 1 { 1 -> 2, _ -> 3 }) -> int\nfn plus(a: int, b: int = match 2 { 2 -> 5, _ -> 6 }) -> int { a + b }\nprintln(plus(1))\nprintln(plus(1, 2))\n",
+            Want::Out("6\n3\n"),
+        ),
+        // … and on an impl method / lambda parameter the default itself is the diagnostic (D102)
+        p(
+            "match-inside-default-of-impl-method-and-lambda",
+            w!("B_36.abra"),
+            Want::Rejected(&["method that implements an interface can't have a default value", "anonymous function can't have a default value"]),
+        ),
     ]
 }
 
